@@ -69,3 +69,102 @@ package gateway
 //@   ensures [C01] qos: h.mqttOutN == n0 + 1 ==> h.mqttOut[n0].(*mqPkts.PublishPacket).Qos == ite(snPublish.QOS == 3, 0, snPublish.QOS)
 //@   ensures [C01] msgid: h.mqttOutN == n0 + 1 ==> h.mqttOut[n0].(*mqPkts.PublishPacket).MessageID == snPublish.messageID
 //@   ensures [C01] topic: h.mqttOutN == n0 + 1 ==> old(denotesName(h, tit, tid, sentName))
+
+// ---- C23 / C11: sending to the client ----
+// Asleep: the packet is queued (appended to pktBuffer), nothing is sent.
+// Otherwise: the packed datagram is handed to the client connection.
+//@ func (*handler1).snSend
+//@   nopanic [C25]
+//@   requires [C25] conn: h.state != nil && h.snConn != nil && state(h) <= 3
+//@   requires [C23] wf: wfFromGateway(pkt)
+//@   assigns h.snOutN, h.snOut, h.pktBuffer,
+//@      pkt.(*snPkts1.GwInfo).Header.pktLength, pkt.(*snPkts1.Connect).Header.pktLength, pkt.(*snPkts1.WillMsg).Header.pktLength,
+//@      pkt.(*snPkts1.Register).Header.pktLength, pkt.(*snPkts1.Publish).Header.pktLength, pkt.(*snPkts1.Pingreq).Header.pktLength,
+//@      pkt.(*snPkts1.WillMsgUpd).Header.pktLength, pkt.(*snPkts1.Auth).Header.pktLength, pkt.(*snPkts1.WillTopic).Header.pktLength,
+//@      pkt.(*snPkts1.WillTopicUpd).Header.pktLength, pkt.(*snPkts1.Subscribe).Header.pktLength, pkt.(*snPkts1.Unsubscribe).Header.pktLength,
+//@      pkt.(*snPkts1.Disconnect).Header.pktLength
+//@   at Write.0 before assert [C23] datagram_wf: lenFieldOK(arg(1)) && len(arg(1)) <= 8192 && arg(1)[hdrOnWire(arg(1)) - 1] == wireType(pkt)
+//@   at Write.0 before ghost h.snOut = upd(h.snOut, h.snOutN, pkt)
+//@   at Write.0 before ghost h.snOutN = h.snOutN + 1
+//@   ensures [C11] asleep_queues: old(state(h)) == 2 ==> result == nil && h.snOutN == old(h.snOutN) &&
+//@      len(h.pktBuffer) == old(len(h.pktBuffer)) + 1 && h.pktBuffer[old(len(h.pktBuffer))] == pkt
+//@   ensures [C11] asleep_keeps_queue: old(state(h)) == 2 ==> (forall i int :: 0 <= i && i < old(len(h.pktBuffer)) ==> h.pktBuffer[i] == old(h.pktBuffer[i]))
+//@   ensures [C11] awake_buffer_untouched: old(state(h)) != 2 ==> sameSlice(h.pktBuffer, old(h.pktBuffer))
+//@   ensures [C11] at_most_one: h.snOutN == old(h.snOutN) || h.snOutN == old(h.snOutN) + 1
+//@   ensures [C11] awake_sends: old(state(h)) != 2 && result == nil ==> h.snOutN == old(h.snOutN) + 1
+//@   ensures [C11] what: h.snOutN == old(h.snOutN) + 1 ==> h.snOut[old(h.snOutN)] == pkt
+//@   ensures [C11] prefix: forall i int :: i != old(h.snOutN) ==> h.snOut[i] == old(h.snOut[i])
+//@   ensures [C25] state_unchanged: state(h) == old(state(h))
+
+// ---- C04: topic IDs handed out by the gateway ----
+// h.topicID.given (ghost, util.IDSequence) is the set of all IDs drawn from
+// the session's ID sequence so far; an ID is "issued" once it has been drawn.
+// Either the first cycle of the sequence is still running, or exhaustion has been recorded, or the
+// sequence has just wrapped and its (one-shot) overflow signal is still pending.
+//@ pred topicSeq(h *handler1) = h.topicID != nil && seqInv(h.topicID) && h.topicID.min == 1 && h.topicID.max == 0xFFFE &&
+//@      (h.topicID.cycle == 0 || h.topicIDsUsedUp || (h.topicID.pos == 0 && h.topicID.overflow))
+
+//@ func (*handler1).newTopicID
+//@   nopanic [C25]
+//@   requires [C04] seq: topicSeq(h)
+//@   assigns h.topicIDsUsedUp, h.topicID.next, h.topicID.overflow, h.topicID.pos, h.topicID.cycle, h.topicID.given
+//@   loop 0 invariant [C04] li: topicSeq(h) && !h.topicIDsUsedUp && !old(h.topicIDsUsedUp) && !old(topicID in h.topicID.given) && (topicID in h.topicID.given) &&
+//@      1 <= topicID && topicID <= 0xFFFE && (forall k uint16 :: old(k in h.topicID.given) ==> (k in h.topicID.given))
+//@   ensures [C04] keeps: topicSeq(h)
+//@   ensures [C04] in_range: result1 == nil ==> 1 <= result0 && result0 <= 0xFFFE
+//@   ensures [C04] never_reissued: result1 == nil ==> !old(result0 in h.topicID.given) && (result0 in h.topicID.given)
+//@   ensures [C04] no_predefined_collision: result1 == nil ==> !nameDefined(h.predefinedTopics, h.clientID, result0)
+//@   ensures [C04] exhaustion_is_final: old(h.topicID.cycle > 0) ==> result1 != nil
+//@   ensures [C04] monotone: forall k uint16 :: old(k in h.topicID.given) ==> (k in h.topicID.given)
+//@   ensures [C04] error_is: result1 != nil ==> result1 == ErrTopicIDsExhausted && result0 == 0
+
+// Range closure of findRegisteredTopicID: inRange(k, v) = (k, v) is an entry of
+// the map being ranged over (bound to h.registeredTopics at the Range call).
+//@ func (*handler1).findRegisteredTopicID$1
+//@   nopanic [C25]
+//@   requires [C25] entry: inRange(key, value)
+//@   requires [C25] types: istype(key, uint16) && istype(value, string)
+//@   assigns topicID, found
+//@   invariant [C04] hit_is_entry: found ==> inRange(box(uint16, topicID), box(string, topic))
+
+//@ func (*handler1).findRegisteredTopicID
+//@   nopanic [C25]
+//@   requires [C25] types: regTypes(h)
+//@   ensures [C04] found_is_entry: found ==> (box(uint16, topicID) in h.registeredTopics) &&
+//@      smGet(h.registeredTopics, box(uint16, topicID)) == box(string, topic)
+
+// registerTopic binds a drawn ID to a name; an ID is bound at most once
+// (boundOnce: every registered ID has been drawn from the sequence, so a
+// freshly drawn ID is not registered yet).
+//@ pred boundOnce(h *handler1) = forall k iface :: k in h.registeredTopics ==> (k.(uint16) in h.topicID.given)
+
+//@ func (*handler1).registerTopic
+//@   nopanic [C25]
+//@   requires [C04] seq: topicSeq(h) && regTypes(h) && boundOnce(h)
+//@   assigns h.registeredTopics, h.topicIDsUsedUp, h.topicID.next, h.topicID.overflow, h.topicID.pos, h.topicID.cycle, h.topicID.given
+//@   ensures [C04] keeps: topicSeq(h) && regTypes(h) && boundOnce(h)
+//@   ensures [C04] in_range: result1 == nil ==> 1 <= result0 && result0 <= 0xFFFE
+//@   ensures [C04] bound_to_name: result1 == nil ==> (box(uint16, result0) in h.registeredTopics) &&
+//@      smGet(h.registeredTopics, box(uint16, result0)) == box(string, topic)
+//@   ensures [C04] never_rebinds: forall k iface :: old(k in h.registeredTopics) ==> (k in h.registeredTopics) &&
+//@      smGet(h.registeredTopics, k) == old(smGet(h.registeredTopics, k))
+//@   ensures [C04] no_predefined_collision: result1 == nil && !old(box(uint16, result0) in h.registeredTopics) ==>
+//@      !nameDefined(h.predefinedTopics, h.clientID, result0)
+//@   ensures [C04] refusal_binds_nothing: result1 != nil ==> (forall k iface :: (k in h.registeredTopics) == old(k in h.registeredTopics))
+//@   ensures [C04] monotone: forall k uint16 :: old(k in h.topicID.given) ==> (k in h.topicID.given)
+
+// ---- C07: gate for packets received in the disconnected state ----
+// From the statement: before a successful connect exchange only packets of the
+// connect exchange (CONNECT, AUTH, WILLTOPIC, WILLMSG), a DISCONNECT, and -- with
+// authentication disabled -- a QoS -1 PUBLISH on a short or predefined topic are let through.
+//@ spec legalWhenDisconnected(h *handler1, pkt iface) bool = istype(pkt, *snPkts1.Connect) || istype(pkt, *snPkts1.Auth) ||
+//@      istype(pkt, *snPkts1.WillMsg) || istype(pkt, *snPkts1.WillTopic) || istype(pkt, *snPkts1.Disconnect) ||
+//@      (istype(pkt, *snPkts1.Publish) && !h.cfg.AuthEnabled && pkt.(*snPkts1.Publish).QOS == 3 &&
+//@         (pkt.(*snPkts1.Publish).TopicIDType == 2 || pkt.(*snPkts1.Publish).TopicIDType == 1))
+
+//@ func (*handler1).checkPacketLegal
+//@   nopanic [C25]
+//@   requires [C25] inv: h.state != nil && h.cfg != nil
+//@   ensures [C07] connected_any: state(h) != 0 ==> result == nil
+//@   ensures [C07] gate: state(h) == 0 ==> ((result == nil) == legalWhenDisconnected(h, pkt))
+//@   ensures [C07] illegal_error: result != nil ==> result == ErrIllegalPacketWhenDisconnected
